@@ -981,6 +981,8 @@ pub fn worker(input: &Value) -> Value {
     let mut samples = Vec::new();
     let mut validated = 0u64;
     let mut table_runs = 0u64;
+    let want_trace = input["trace"].as_bool().unwrap_or(false);
+    let mut trace: Vec<Value> = Vec::new();
     if property == "C03" {
         let cases = import_cases();
         for (i, c) in cases.iter().enumerate() {
@@ -990,6 +992,9 @@ pub fn worker(input: &Value) -> Value {
             let ks = derive_n(seed, "c03-keys", i as u64);
             let rep = run_import_case(c, ks);
             n += 1;
+            if want_trace {
+                trace.push(json!([i, trace_digest(&rep), import_case_json(c, boot_seed, ks)]));
+            }
             events += rep.events;
             for t in &rep.triples {
                 triples.insert(t.clone());
@@ -1007,7 +1012,7 @@ pub fn worker(input: &Value) -> Value {
                 samples.push(json!({"case": import_case_json(c, boot_seed, ks), "log": rep.log}));
             }
         }
-        return json!({"boot_seed": boot_seed, "runs": n, "events": events, "triples": triples.iter().collect::<Vec<_>>(), "faults_fired": faults, "cases_total": cases.len(),
+        return json!({"boot_seed": boot_seed, "runs": n, "events": events, "triples": triples.iter().collect::<Vec<_>>(), "faults_fired": faults, "cases_total": cases.len(), "trace": trace,
                       "violations": violations, "harness_errors": harness_errors, "samples": samples});
     }
     let mut run = shard;
@@ -1017,6 +1022,9 @@ pub fn worker(input: &Value) -> Value {
         let sc = gen(seed, boot_seed, run, faulty);
         let rep = run_scenario(&sc);
         n += 1;
+        if want_trace {
+            trace.push(json!([run, trace_digest(&rep), sc.to_json()]));
+        }
         events += rep.events;
         for t in &rep.triples {
             triples.insert(t.clone());
@@ -1071,7 +1079,7 @@ pub fn worker(input: &Value) -> Value {
     json!({"boot_seed": boot_seed, "runs": n, "events": events, "triples": triples.iter().collect::<Vec<_>>(), "faults_fired": faults, "natural_errors": natural,
            "torn_effects": torn, "torn_seen_by_later_read": torn_seen, "fault_right_after_create": after_create, "lang_route_rejected": lang_rejected,
            "distinct_final_states": states.len(), "violations": violations, "harness_errors": harness_errors, "samples": samples,
-           "validated_against_real_fs": validated, "table_runs": table_runs})
+           "validated_against_real_fs": validated, "table_runs": table_runs, "trace": trace})
 }
 
 pub fn single(input: &Value) -> Value {
@@ -1082,7 +1090,11 @@ pub fn single(input: &Value) -> Value {
         "ossim-table" => run_table(input["key_seed"].as_u64().unwrap(), input["arg_seed"].as_u64().unwrap()),
         _ => run_scenario(&Scenario::from_json(input)),
     };
-    json!({"violation": rep.violation.as_ref().map(|(c, d)| json!([c, d])), "log": rep.log, "harness_error": rep.harness_error})
+    json!({"violation": rep.violation.as_ref().map(|(c, d)| json!([c, d])), "log": rep.log, "harness_error": rep.harness_error, "trace_digest": trace_digest(&rep)})
+}
+
+pub fn trace_digest(rep: &RunReport) -> String {
+    format!("{:016x}", digest(&format!("{:?}#{:?}#{}", rep.log, rep.violation, rep.state_digest)))
 }
 
 /// ddmin over calls (fault indices are re-keyed to the surviving calls), then over faults.
